@@ -73,6 +73,8 @@ MEANok(r) ==
   /\ \E nz \in {IRNonZero(r)} : \E h \in {HalfWidths(r, nz)} : \E target \in {r.c * P2(r.fk - r.sd)} :
      LET unit == P2(r.irk) IN
          /\ ~Clipped(r, nz)
+         \* a direction with FWHM 0 is not filtered (beyond the property text; the parameters belong to their axes)
+         /\ \A d \in Axes : r.fwhm[d] = 0 => h[d] = 0
          \* the impulse response of a Gaussian / Metz filter is symmetric about the impulse (exactly: both
          \* sides are the same stored coefficient)
          /\ \A q \in nz : LET p == Pos(Z3, r.irn, q - 1)
@@ -139,6 +141,9 @@ ON1ok(r) ==
 \* abs: exact.  log, exp: TLC evaluates no transcendental function; the elementwise results must satisfy the
 \* functional equations on the dyadic data chosen: log(1) = 0, log(2^j m) = log(m) + j log(2) (log(2) and log(m)
 \* being other recorded results), exp(0) = 1, exp(a + 1) = exp(a) exp(1), exp(a) exp(-a) = 1, both monotone
+\* round(ln 2 * 2^20), round(e * 2^20)
+Ln2Fx20 == 726817
+EFx20 == 2850325
 IndexOf(s, v) == CHOOSE i \in 1..Len(s) : s[i] = v
 Occurs(s, v) == \E i \in 1..Len(s) : s[i] = v
 ELTok(r) ==
@@ -151,6 +156,8 @@ ELTok(r) ==
             /\ Occurs(r.x, one) /\ Occurs(r.x, 2 * one)
             /\ \E l2 \in {r.o[IndexOf(r.x, 2 * one)]} :
                /\ r.o[IndexOf(r.x, one)] = 0
+               \* the natural logarithm: ln 2 = 0.693147... (the one constant that fixes the base)
+               /\ Abs(l2 * P2(20 - r.fk) - Ln2Fx20) <= P2(20 - r.fk) + 2
                /\ \A i \in 1..n : \E m \in {OddPart(r.x[i])} : \E j \in {TwoExp(r.x[i]) - r.sx} :
                     \* the odd part itself (times the unit) is among the data
                     /\ Occurs(r.x, m * one)
@@ -161,6 +168,8 @@ ELTok(r) ==
             /\ r.sx = 0 /\ r.fk <= 10 /\ \A i \in 1..n : Abs(r.x[i]) <= 4 /\ r.o[i] > 0
             /\ Occurs(r.x, 0) /\ Occurs(r.x, 1)
             /\ r.o[IndexOf(r.x, 0)] = P2(r.fk)
+            \* e = 2.718281... (the one constant that fixes the base)
+            /\ Abs(r.o[IndexOf(r.x, 1)] * P2(20 - r.fk) - EFx20) <= P2(20 - r.fk) + 2
             /\ \E e1 \in {r.o[IndexOf(r.x, 1)]} : \E one \in {P2(r.fk)} :
                \A i \in 1..n :
                  /\ Occurs(r.x, r.x[i] + 1) =>
